@@ -29,7 +29,7 @@ ASSUMPTIONS = [
     "lossy actions (truncating compress, optimisation, evolution) re-define the dense shadow from the object itself: only the sector/label invariants are claimed here (their numerical accuracy is C05/C08/C09)",
     "explicit refusals (NotImplementedError, precondition asserts of the called method) disable the transition",
 ]
-HORIZON_S = 300
+HORIZON_S = 900
 HEAVY_CASES = True
 
 
@@ -348,6 +348,8 @@ def tree_cases(tier):
                         if quick and famname == "two3" and sec not in ([1, 1], [1, 0], [2, 1]):
                             continue
                         if quick and famname == "two3" and N == 3 and max(len(g) for g in dist) > 1:
+                            continue
+                        if quick and famname == "elec3" and sec not in ([1], [2]) and N == 3:
                             continue
                         yield {"k": "tree", "fam": famname, "parent": parent, "groups": [list(g) for g in dist], "sector": sec, "n": N,
                                "depth": 2, "shard": "tree", "few_numerical": quick}
